@@ -1,24 +1,52 @@
-"""C05 - revision engine; see harness/rev_corr.py (shared runner) and lean/Props/C05.lean"""
-from .. import rev_corr
+"""C05 - revision engine; see harness/rev_corr.py (shared runner), harness/rev_e2e.py (real
+`alembic stamp` runs through the shipped env.py on a SQLite file, with and without --purge) and
+lean/Props/C05.lean"""
+from .. import rev_corr, rev_e2e
 from . import _rev_common as common
 
 PROPERTY = "C05"
 DRIVER = "drv_rev"
 THEOREMS = common.THEOREMS["C05"]
 PARTIAL = common.PARTIAL.get("C05", {})
-TRUSTED = rev_corr.REV_TRUSTED
-RULE = common.RULE
+TRUSTED = rev_corr.REV_TRUSTED + [
+    "end-to-end part: the shipped generic env.py, pysqlite and a SQLite file; rows are read through a fresh sqlite3 connection after command.stamp returned",
+]
+RULE = common.RULE + "; plus end-to-end `alembic stamp [--purge]` command sequences on real script directories (random DAGs of 2-7 revisions)"
 ASSUMPTIONS = common.ASSUMPTIONS
 
 
 def run(ctx):
     rev_corr.run_focus(ctx, "C05")
+    rng = ctx.rng("e2e")
+    rev_e2e.run(ctx, rng, 40 if ctx.thorough else 8, 10 if ctx.thorough else 6)
 
 
 def search(ctx):
     rev_corr.run_focus(ctx, "C05", rng_name="search", scale=2.0)
+    rev_e2e.run(ctx, ctx.rng("search-e2e"), 16, 8)
 
 
-check_witness = common.make_check_witness("C05")
-classify = common.make_classify("C05")
-replay = common.make_replay("C05")
+_check_witness = common.make_check_witness("C05")
+_classify = common.make_classify("C05")
+_replay = common.make_replay("C05")
+
+
+def check_witness(ctx, finding):
+    return _check_witness(ctx, finding)
+
+
+def classify(failure):
+    if failure["input"].get("e2e"):
+        return None
+    return _classify(failure)
+
+
+def replay(ctx, case):
+    inp = case["input"]
+    if inp.get("e2e"):
+        from ..core import Ctx
+
+        sub = Ctx("C05", ctx.tier, ctx.seed, "drv_rev")
+        rev_e2e.replay_case(sub, inp)
+        return {"failures": [f["what"] for f in sub.failures], "disagreements": len(sub.disagreements)}
+    return _replay(ctx, case)
